@@ -111,6 +111,7 @@ theorem answer_depth {he : HostEnv} {w w1 : World} {op : Interp.HostOp} {resp : 
     split at h <;> simp only [pure, Except.pure, Except.ok.injEq, Prod.mk.injEq] at h <;>
       (rw [← h.2]; exact w_loadCode_depth h1)
   | blockHash n => simp only [answer, pure, Except.pure, Except.ok.injEq, Prod.mk.injEq] at h; rw [← h.2]
+  | create2Address d sl c => simp only [answer, pure, Except.pure, Except.ok.injEq, Prod.mk.injEq] at h; rw [← h.2]
   | sload a k =>
     simp only [answer] at h
     obtain ⟨⟨js, v, c⟩, h1, h⟩ := bind_ok h
